@@ -4,7 +4,7 @@ NEXT GStop
 INVARIANT Emit
 CHECK_DEADLOCK FALSE
 CONSTANTS
- Fix = {}
+ Fix = {"mergeToken", "cloneTransport"}
  MGroup = {"tls", "user", "token", "helper", "expire", "mirrors", "prio", "repoauth", "ao1", "bmax", "rps", "api", "scheme", "name"}
  MVals = 2
  MValsB = 2
